@@ -7,6 +7,7 @@
 //   cli gen  --cfg C --seed S --index I
 //   cli run  --cfg C --seed S --start A --stride W --count N [--twice] [--secs T] [--samples]
 //   cli exec --replay FILE [--log]
+#include <link.h>
 #include <cstdio>
 #include <cstdlib>
 #include <cstring>
@@ -306,6 +307,18 @@ static void drop_reachable_from_statics(std::map<const void *, Blk> &live) {
     std::set<const void *> marked; vector<const void *> work;
     if (__start_eavdata) scan_words(__start_eavdata, __stop_eavdata, live, marked, work);
     if (__start_eavbss) scan_words(__start_eavbss, __stop_eavbss, live, marked, work);
+    {   // thread-local statics of the executable (tool and library objects are linked into it; one thread)
+        static const char *lo = nullptr, *hi = nullptr; static bool known = false;
+        if (!known) {
+            known = true;
+            dl_iterate_phdr([](struct dl_phdr_info *info, size_t, void *) -> int {
+                if (info->dlpi_name && info->dlpi_name[0]) return 0;
+                if (!info->dlpi_tls_data) return 1;
+                for (int i = 0; i < info->dlpi_phnum; i++) if (info->dlpi_phdr[i].p_type == PT_TLS) { lo = (const char *)info->dlpi_tls_data; hi = lo + info->dlpi_phdr[i].p_memsz; }
+                return 1; }, nullptr);
+        }
+        if (lo) scan_words(lo, hi, live, marked, work);
+    }
     while (!work.empty()) { const void *p = work.back(); work.pop_back(); scan_words((const char *)p, (const char *)p + live[p].n, live, marked, work); }
     for (auto p : marked) live.erase(p);
 }
